@@ -320,8 +320,6 @@ class HamiltonianDisplacementMove(
         bool
             Whether the move was valid.
         """
-        from quansino.mc.contexts import Context  # local: quansino.mc imports this module
-
         atoms = context.atoms
         old_positions = atoms.get_positions()
         old_momenta = atoms.get_momenta()
@@ -338,7 +336,6 @@ class HamiltonianDisplacementMove(
 
             atoms.positions = old_positions
             atoms.set_array("momenta", old_momenta, float, (3,))
-            Context.revert_state(context)
 
         return False
 
